@@ -110,7 +110,7 @@ func c20Run(cs c20Case) c20Obs {
 	select {
 	case r := <-done:
 		obs.Acc, obs.Errs, obs.Panic = r.acc, r.errs, r.pan
-	case <-time.After(10 * time.Second):
+	case <-time.After(5 * time.Second):
 		obs.Hang = true
 	}
 	// goroutines started by the call must be gone (allow the scheduler a moment)
@@ -211,8 +211,16 @@ func c20Oracle(cs c20Case, o c20Obs) string {
 }
 
 // c20Check runs one case: oracle (impl vs property) and trace conformance (impl vs model).
+var c20Hung bool
+
 func c20Check(ctx *Ctx, idx int, cs c20Case) {
+	if c20Hung {
+		return // a hang was already found
+	}
 	o := c20Run(cs)
+	if o.Hang {
+		c20Hung = true
+	}
 	pat := make([]byte, len(cs.Ok))
 	for i, b := range cs.Ok {
 		pat[i] = '0'
@@ -287,6 +295,27 @@ func runC20(ctx *Ctx) error {
 		}
 		c20Check(ctx, idx, cs)
 		idx++
+	}
+	// large inputs: any fixed internal limit (worker pool, semaphore, channel buffer) shows up only
+	// past its threshold, so sizes around powers of two and GOMAXPROCS are always included
+	bigs := []int{runtime.GOMAXPROCS(0) + 1, 33, 65, 129, 257, 1025}
+	if ctx.Thorough() {
+		bigs = append(bigs, 2049, 4097, 10001)
+	}
+	for _, n := range bigs {
+		for mode := 0; mode < 3; mode++ {
+			r := ctx.Rand.Fork()
+			cs := c20Case{Ok: make([]bool, n), MapDelay: make([]int, n), RedDelay: make([]int, n)}
+			for i := 0; i < n; i++ {
+				cs.Ok[i] = mode == 0 || (mode == 2 && r.Chance(2, 3))
+				if r.Chance(1, 8) {
+					cs.MapDelay[i] = r.Intn(50)
+				}
+			}
+			ctx.Rep.Count(fmt.Sprintf("large n=%d", n))
+			c20Check(ctx, idx, cs)
+			idx++
+		}
 	}
 	maxN, cases := 8, 300
 	if ctx.Thorough() {
